@@ -41,7 +41,7 @@ def fixed_flow_origin(M):
 def one(M, rec, rng, g, desc, pars, st):
     cand = CC.candidate_params(desc, pars)
     custom = {}
-    if rng.random() < 0.3:
+    if rng.random() < 0.3 and not any(o.get("user") or o.get("user_cap_flow") is not None for o in desc["origins"]):
         cls = fixed_flow_origin(M)
         for o in desc["origins"]:
             if o["kind"] == "ideal":
@@ -122,6 +122,8 @@ def one(M, rec, rng, g, desc, pars, st):
                     continue
                 if o["kind"] == "ideal":
                     exp = vals[lk["id"]]["rho"][0] * vals[lk["id"]]["v"][0] * lk["lam"]
+                    if o.get("user_q") is not None:
+                        exp = o["user_q"]  # user-defined boundary origin prescribing its flow
                     rec.count("origin_flow_checks")
                     if not close(qo[oid], exp, abs(exp)):
                         rec.violation(f"{PROP}:compact={compact}: reported flow of an ideal origin != flow of the first segment of its link",
@@ -176,6 +178,8 @@ def run(M, rec, tier, seed, k, n):
     for it in range(110 if tier == "quick" else 800):
         shape = next(sh)
         desc = g.all_kinds_network() if it % 4 == 0 else g.network(shape)[1]
+        if rng.random() < 0.35 and G.add_user_kinds(desc, rng, p_origin=0.8, p_link=0.0):
+            rec.count("networks_with_user_defined_origin_kinds")
         pars = g.pars()
         for st in ("SX", "MX"):
             one(M, rec, rng, g, desc, pars, st)
